@@ -12,6 +12,7 @@ xlrd (the reader under test) and of xlsxwriter.
   None                   no cell at all (a gap)
 """
 import io
+import re
 import zipfile
 
 _CT = (
@@ -49,7 +50,12 @@ _MAIN = "http://schemas.openxmlformats.org/spreadsheetml/2006/main"
 _REL = "http://schemas.openxmlformats.org/officeDocument/2006/relationships"
 
 
+_LITERAL_ESCAPE = re.compile(r"_(x[0-9A-Fa-f]{4}_)")
+
+
 def _escape(text):
+    # ECMA-376 22.9.2.19 (ST_Xstring): a literal "_xHHHH_" is stored with its first underscore escaped as "_x005F_"
+    text = _LITERAL_ESCAPE.sub(r"_x005F_\1", text)
     return text.replace("&", "&amp;").replace("<", "&lt;").replace(">", "&gt;")
 
 
